@@ -69,6 +69,15 @@ void run (string s) {
   }
 }
 
+// call_out callback (scheduled by the harness command `cotick`): dispatched by call_heart_beat() -> call_out() after the round
+void sched (string ops) { call_out ("co", 1, ops); }
+void co (string ops) {
+  string me = oid;
+  VL ("cobegin " + me);
+  run (ops);
+  VL ("coend " + me);
+}
+
 void beat () {
   int ec = eval_cost ();            // first thing: how much evaluation cost is left at entry
   string me = oid;
